@@ -52,6 +52,10 @@ CHECKS = {
          "Differential property test of every on-disk decoder against an independent reference decoder written from the format: region metadata slots, vector headers, page-index entries, 30 value encodings, raw and base change records; valid encodings at and around the limits plus truncations, bit flips, boundary values in the length/count words, extensions and arbitrary bytes. The library must accept/refuse exactly as the reference does, decode the same fields, never panic and never request an allocation beyond 2x input + 512 bytes (counting allocator). Through the API: regions files with invalidated slots must open, skip exactly those slots and load the others unchanged.",
          "Trusts the reference decoders (the formats and validity rules as the property states them) and hook H9's public wrappers over the private decoders. Proptest only: the libFuzzer campaign sketched in the design is not built.",
          "differential property testing (reference decoder) with structured mutation of valid encodings (proptest)", "DESIGN.md §4 C17"),
+ "C14": ("E3-vecmodel", "exploration",
+         "Model-based property test of the import matrix: a vector is created through one of the four entry points in one of six formats under a generated version, filled by a C03-style history (so that holes / page-index regions exist), optionally given a damaged header, and then requested through a generated entry point under a generated (format, version). Match => exactly the stored contents and a working vector; mismatch + plain => DifferentVersion/DifferentFormat with every region of the database byte-identical and the creating pair still importing everything; mismatch + forced => an empty vector (no elements, no deleted slots) that then behaves like a fresh one.",
+         "Lock and I/O errors cannot be provoked through the public API, so that clause is not exercised; element type equal on both sides (u32 / u64).",
+         "stateful model-based property testing over the (format, version, entry point) matrix (proptest)", "DESIGN.md §4 C14"),
 }
 WIP = "not claimed: the generated-input check designed in DESIGN.md §4 was not built within the time available (the technique applies; nothing is asserted about this property)"
 
